@@ -57,13 +57,12 @@ Theorem C04_crossing_sends_deadlock : forall cfg nn o1 o2 a b,
 Proof. exact crossing_sends_deadlock_lemma. Qed.
 Print Assumptions C04_crossing_sends_deadlock.
 
-(* D6: both two-qubit gates return, then the requests orphaned by the timeout branch are granted: both node locks are held
-   for ever although every operation has completed (trace recorded from the implementation) *)
+(* D6: both two-qubit gates return, then a request orphaned by the timeout branch is granted: the lock of node 0 is held for ever
+   although every operation has completed (trace recorded from the implementation) *)
 Theorem C04_orphan_lock_leak :
   exists s, run cfg_cross (init 2 cfg_cross) leak_trace = Some s /\
-    done s 0 = true /\ done s 1 = true /\
-    lock_of s 0 = Some (1, true) /\ lock_of s 1 = Some (0, true) /\
-    forall tr' s', run cfg_cross s tr' = Some s' -> lock_of s' 0 = Some (1, true) /\ lock_of s' 1 = Some (0, true).
+    done s 0 = true /\ done s 1 = true /\ lock_of s 0 = Some (1, true) /\
+    forall tr' s', run cfg_cross s tr' = Some s' -> lock_of s' 0 = Some (1, true).
 Proof. exact orphan_lock_leak_lemma. Qed.
 Print Assumptions C04_orphan_lock_leak.
 
